@@ -44,6 +44,10 @@ def obligations(tier, ctx):
         obs.append(Ob(name=f"handler_{op}_many", params=[("k", "int"), ("tsel", "int"), ("idsel", "int")],
                       pre=[f"0 <= k < {nc1 if op == 'initialize' else nc}", ("0 <= tsel <= 3" if op != "initialize" else "tsel == 3"), ("0 <= idsel <= 1" if op != "request" else "idsel == 0")],
                       call=f"H.handler_many({op!r}, k, tsel, idsel, {1100 if op == 'initialize' else lim})", backend="P", timeout=900, family="count: one handler step on a store of c-1, c, c+1 sessions"))
+    for be in ("P", "F"):
+        obs.append(Ob(name=f"handler_initialize_clientinfo_{be}", params=[("now", "int"), ("ci", "int"), ("idsel", "int"), ("sid", "bool")], pre=["0 <= now", "0 <= ci <= 5", "idsel in (0, 2)"],
+                      call="H.handler_step_ci('initialize_sid' if sid else 'initialize', 1, [0], [0], now, 1, 0, idsel, ci)", backend=be, timeout=300,
+                      family="protocol handler step: shapes of clientInfo (null / falsy / nested / template-like members, empty object)"))
     obs.append(Ob(name="unique_ids", params=[("x", "int")], pre=["x == 0"], call="H.unique_ids(5)", backend="P", timeout=60, family="id generation"))
     from symcheck.runner import mirror
     obs += mirror(obs, r"^handler_(initialize|initialize_sid|request|request_unknown|notification_unknown)_n1$", "F", limit=(5 if tier == "quick" else None))
